@@ -206,6 +206,26 @@ def auto_discharge(body, src):
             if len(pc) == 1 and pc[0].gargs and all(g.lstrip("&") in TOTAL for g in pc[0].gargs[:2]):
                 return "A6 partial_cmp on the totally ordered type %s is always Some" % pc[0].gargs[0]
         return None
+    if src.kind == "capacity":
+        # A9: the requested size is a constant, has a small interval, or is the length / count / capacity of something that already
+        # exists in memory (plus constants): it cannot be an arbitrary configured number
+        from .panics import CAPACITY_ARG
+        t = body.term(src.bb)
+        if t["t"] != "call":
+            return None
+        cs = CallSite(body, src.bb, t)
+        i_ = CAPACITY_ARG.get(src.what, 1)
+        if i_ >= len(cs.args):
+            return None
+        iv = interval(body, cs.args[i_])
+        if iv is not None and iv[1] <= 2 ** 32:
+            return "A9 requested size within %s..%s" % iv
+        sl = origins(body, cs.args[i_])
+        SIZES = ("len", "count", "capacity", "size_hint", "size", "bits", "encoded_len", "max_encoded_len", "num_bytes", "digest_size", "block_size")
+        inputs = [l_ for l_ in sl.leaves if l_.startswith(("param:", "field:", "static:"))] if hasattr(sl, "leaves") else None
+        if inputs is not None and not inputs and not sl.fields and all((c_.name or "").rsplit("::", 1)[-1] in SIZES or (c_.fn or "").startswith(("core::cmp::", "core::num::", "core::ops::arith")) for c_ in sl.calls):
+            return "A9 requested size derives from lengths of existing values and constants only"
+        return None
     if src.kind != "assert":
         return None
     t = body.term(src.bb)
